@@ -54,6 +54,11 @@ class ValuesProfile(StoreProfile):
             if twins:
                 run.probes["near_twin_of_a_held_sid"] += 1
                 return X.call("Sid", rng.choice(twins))
+        if rng.random() < 0.06 and tn:
+            # sid AND query handed to the constructor together (the string of a Sid the client may already hold)
+            kq = rng.choice(m.by_name[tn].keys)
+            run.probes["constructor_with_sid_and_query"] += 1
+            return X.call("Sid", base, query="%s=%s" % (kq, rng.choice(["*", "zz", m.fields(tn, base).get(kq, "x")])))
         if r < 0.25:
             return X.call("Sid", base)
         if r < 0.40:
